@@ -108,7 +108,71 @@ def sub_bodies(s):
     if k == 'do': return [s[5]]
     if k == 'while': return [s[2]]
     if k == 'if': return [s[2], s[3]]
+    if k == 'select': return [b for _, b in s[2]] + [s[3]]
     return []
+
+# ---- SELECT CASE: source-level statement ['select', selector, [[values, body], ...], default_body]; for the model, the
+# class predicates and the tracer it is encoded as the tagged IF/ELSE-IF chain of M_C26.sel_chain
+TRUE = ['log', True]
+
+def case_cond(sel, vals): return ['or'] + [['cmp', '==', sel, v] for v in vals]
+
+def desugar(ss):
+    out = []
+    for s in ss:
+        k = s[0]
+        if k == 'select':
+            chain = desugar(s[3])
+            for i in range(len(s[2]) - 1, -1, -1):
+                vals, b = s[2][i]
+                tag = ['and', TRUE, case_cond(s[1], vals)] if i == 0 else ['and', TRUE, TRUE, case_cond(s[1], vals)]
+                chain = [['if', tag, desugar(b), chain]]
+            out += chain
+        elif k == 'do': out.append(s[:5] + [desugar(s[5])])
+        elif k == 'while': out.append([s[0], s[1], desugar(s[2])])
+        elif k == 'if': out.append([s[0], s[1], desugar(s[2]), desugar(s[3])])
+        else: out.append(s)
+    return out
+
+def is_cont(s): return s[0] == 'if' and s[1][0] == 'and' and len(s[1]) == 4 and s[1][1] == TRUE and s[1][2] == TRUE
+def is_head(s): return s[0] == 'if' and s[1][0] == 'and' and len(s[1]) == 3 and s[1][1] == TRUE
+
+def real_kinds(D):
+    """kinds of the nodes of the encoded program that are nodes of Loki's IR, in pre-order"""
+    return ['select' if is_head(s) else s[0] for s in preorder(D) if not is_cont(s)]
+
+def fstmts(ss, ind=2):
+    """minif.fstmts plus SELECT CASE"""
+    out = []
+    pad = ' ' * ind
+    for s in ss:
+        k = s[0]
+        if k == 'select':
+            out.append('%sselect case (%s)' % (pad, minif.fexpr(s[1])))
+            for vals, b in s[2]:
+                out.append('%scase (%s)' % (pad, ', '.join(minif.fexpr(v) for v in vals)))
+                out += fstmts(b, ind + 2)
+            if s[3]:
+                out.append(pad + 'case default'); out += fstmts(s[3], ind + 2)
+            out.append(pad + 'end select')
+        elif k == 'do':
+            hdr = '%sdo %s = %s, %s' % (pad, s[1], minif.fexpr(s[2]), minif.fexpr(s[3]))
+            if s[4] is not None: hdr += ', %s' % minif.fexpr(s[4])
+            out.append(hdr); out += fstmts(s[5], ind + 2); out.append(pad + 'end do')
+        elif k == 'while':
+            out.append('%sdo while (%s)' % (pad, minif.fexpr(s[1]))); out += fstmts(s[2], ind + 2); out.append(pad + 'end do')
+        elif k == 'if':
+            out.append('%sif (%s) then' % (pad, minif.fexpr(s[1]))); out += fstmts(s[2], ind + 2)
+            if s[3]:
+                out.append(pad + 'else'); out += fstmts(s[3], ind + 2)
+            out.append(pad + 'end if')
+        else:
+            out += minif.fstmts([s], ind)
+    return out
+
+def unit_fortran(u):
+    lines = minif.unit_to_fortran(dict(u, body=[])).split('\n')
+    return '\n'.join(lines[:-1] + fstmts(u['body']) + lines[-1:])
 
 def dovars_stmt(s):
     r = {s[1]} if s[0] == 'do' else set()
@@ -425,8 +489,8 @@ def case_fortran(case):
     """one module with the enriched callees and the routine; callees that are not enriched stay external"""
     lines = ['module lv_mod', 'implicit none', 'contains']
     for c in case.get('callees', []):
-        if c.get('enrich'): lines.append(minif.unit_to_fortran(c))
-    lines.append(minif.unit_to_fortran(case['unit']))
+        if c.get('enrich'): lines.append(unit_fortran(c))
+    lines.append(unit_fortran(case['unit']))
     lines.append('end module lv_mod')
     return '\n'.join(lines)
 
@@ -463,6 +527,10 @@ def loki_walk(nodes):
             out.append(('if', n)); out += loki_walk(n.body); out += loki_walk(n.else_body or ())
         elif isinstance(n, ir.CallStatement):
             out.append(('call', n))
+        elif isinstance(n, ir.MultiConditional):
+            out.append(('select', n))
+            for b in n.bodies: out += loki_walk(b)
+            out += loki_walk(n.else_body or ())
         else:
             raise minif.Unsupported(type(n).__name__)
     return out
@@ -565,7 +633,55 @@ def gen_call(rng, callee, scalars, arrays1d, free):
             return None
     return ['call', callee['name'], args]
 
-def gen_unit(rng, tier, with_calls=True, marker=False):
+def gen_select(rng, scal, arrays, free):
+    """a SELECT CASE with 2-3 CASE branches (distinct literal values, sometimes two per branch) and usually a CASE DEFAULT;
+    mostly with a variable written in one branch and read in a later branch / the default"""
+    sv = rng.choice(scal)
+    sel = ['var', sv] if rng.random() < 0.5 else ['call', 'mod', ['call', 'abs', ['var', sv]], ['int', 3]]
+    arrays1d = [a for a, d in arrays.items() if len(d) == 1]
+    others = [x for x in scal if x != sv]
+    def leaf(avoid=()):
+        r = rng.random()
+        pool = [x for x in scal + list(free) if x not in avoid]
+        if r < 0.3 or not pool: return ['int', rng.randint(0, 4)]
+        if r < 0.8 or not arrays1d: return ['var', rng.choice(pool)]
+        return ['call', rng.choice(arrays1d), ['var', rng.choice(free)] if free and rng.random() < 0.5 else ['int', rng.randint(1, 3)]]
+    def ex(avoid=()):
+        if rng.random() < 0.5: return leaf(avoid)
+        return [rng.choice(['sum', 'prod']), False, leaf(avoid), leaf(avoid)]
+    def stmts(avoid=()):
+        out = []
+        for _ in range(rng.randint(0, 2)):
+            if arrays1d and rng.random() < 0.25:
+                out.append(['store', rng.choice(arrays1d), [['int', rng.randint(1, 3)]], ex(avoid)])
+            else:
+                out.append(['assign', rng.choice([x for x in others if x not in avoid] or others), ex(avoid)])
+        return out
+    n = rng.randint(2, 3)
+    vals = rng.sample([0, 1, 2, 3, 4, 5], n + 1)
+    cases = []
+    for i in range(n):
+        v = [['int', vals[i]]]
+        if i == 0 and rng.random() < 0.3: v.append(['int', vals[n]])
+        cases.append([v, stmts()])
+    dflt = stmts() if rng.random() < 0.7 else []
+    if rng.random() < 0.7:
+        # t is written in branch i and read in a later branch (or the default) that does not write it first
+        tv = rng.choice(others)
+        i = rng.randint(0, n - 1)
+        j = rng.randint(i + 1, n)
+        for k in range(i):                      # earlier branches and the selector leave t alone
+            cases[k][1] = [s for s in cases[k][1] if tv not in evars(s[-1]) and s[1] != tv]
+        cases[i][1] = [['assign', tv, ex([tv])]] + [s for s in cases[i][1] if s[1] != tv]
+        rd = ['assign', rng.choice([x for x in others if x != tv]), ['sum', False, ['var', tv], leaf([tv])]]
+        if rng.random() < 0.3: rd = ['if', ['cmp', '>', ['var', tv], ['int', 0]], [rd], []]
+        if j < n: cases[j][1] = [rd] + cases[j][1]
+        else: dflt = [rd] + dflt
+    for c in cases:
+        if not c[1]: c[1] = [['assign', rng.choice(others), ex()]]
+    return ['select', sel, cases, dflt]
+
+def gen_unit(rng, tier, with_calls=True, marker=False, select=False):
     scal = list(SCAL)
     arrays = dict(ARRS) if rng.random() < 0.5 else {'a': [[1, 4]], 'b': [[1, 4]]}
     depth = rng.choice([1, 2, 2, 3])
@@ -578,6 +694,16 @@ def gen_unit(rng, tier, with_calls=True, marker=False):
                 s[3] = ['call', 'min', ['call', 'abs', ['var', rng.choice(scal)]], ['int', s[3][1]]]
             for b in sub_bodies(s): vary_bounds(b)
     vary_bounds(body)
+    def positions0(ss, free, acc):
+        acc.append((ss, free))
+        for s in ss:
+            if s[0] == 'do': positions0(s[5], free + [s[1]], acc)
+            elif s[0] == 'if': positions0(s[2], free, acc); positions0(s[3], free, acc)
+        return acc
+    if select and rng.random() < 0.55:
+        for _ in range(rng.choice([1, 1, 2])):
+            ss, free = rng.choice(positions0(body, [], []))
+            ss.insert(rng.randint(0, len(ss)), gen_select(rng, scal, arrays, free))
     callees = []
     if with_calls and rng.random() < 0.6:
         for ci in range(rng.randint(1, 2)):
@@ -589,6 +715,8 @@ def gen_unit(rng, tier, with_calls=True, marker=False):
             if s[0] == 'do': positions(s[5], free + [s[1]], acc)
             elif s[0] == 'while': positions(s[2], free, acc)
             elif s[0] == 'if': positions(s[2], free, acc); positions(s[3], free, acc)
+            elif s[0] == 'select':
+                for b in sub_bodies(s): positions(b, free, acc)
         return acc
     # calls
     for c in callees:
@@ -631,7 +759,6 @@ def gen_unit(rng, tier, with_calls=True, marker=False):
         ss, free = cands[0] if rng.random() < 0.6 else rng.choice(cands)
         ss.insert(rng.randint(0, len(ss)), ['skip', MARK])
     # intents of the routine's own arguments
-    D, U = du_body(body, {})
     wr = set()
     def written(ss):
         for s in ss:
@@ -721,6 +848,22 @@ WITNESSES = {
         'callees': [], 'stores': [_st({'c': 0, 'x': 0, 'y': 0, 'n': 0, 'i': 0})]},
 }
 
+# fixed SELECT CASE shapes (always run, class mode): a variable written in one CASE and read in a later CASE / CASE DEFAULT,
+# directly in the routine body and inside a loop with the read nested in an IF
+_sel1 = ['select', ['var', 'c'], [[[['int', 1]], [['assign', 'x', ['int', 2]], ['assign', 'y', ['int', 1]]]],
+                                  [[['int', 2]], [['assign', 'y', ['sum', False, ['var', 'x'], ['int', 1]]]]]],
+         [['assign', 'y', ['prod', False, ['py', -1], ['var', 'x']]]]]
+_sel2 = ['do', 'i', ['int', 1], ['var', 'n'], None,
+         [['select', ['call', 'mod', ['var', 'i'], ['int', 3]],
+           [[[['int', 0]], [['assign', 'x', ['var', 'i']]]], [[['int', 1]], [['assign', 'y', ['sum', False, ['var', 'y'], ['int', 1]]]]]],
+           [['if', ['cmp', '>', ['var', 'y'], ['int', 0]], [['assign', 'y', ['sum', False, ['var', 'y'], ['var', 'x']]]], []]]]]]
+SELECT_FIXED = [
+    {'kind': 'select-fixed', 'mode': 'class', 'unit': _unit([['assign', 'y', ['int', 0]], _sel1], ['c', 'x', 'y'], {'c': 'in', 'x': 'inout', 'y': 'out'}),
+     'callees': [], 'stores': [_st({'c': k, 'x': 7, 'y': 0, 'n': 0, 'i': 0}) for k in (1, 2, 3)]},
+    {'kind': 'select-fixed', 'mode': 'class', 'unit': _unit([_sel2], ['n', 'x', 'y'], {'n': 'in', 'x': 'inout', 'y': 'inout'}),
+     'callees': [], 'stores': [_st({'c': 0, 'x': 3, 'y': k, 'n': 6, 'i': 0}) for k in (0, 2)]},
+]
+
 for _n, _c in WITNESSES.items():
     # the aspect of the property that is checked exactly as stated on this witness (the others stay restricted to the class)
     _c['aspect'] = 'uses' if _n.startswith('uses') else 'live' if _n.startswith('live') else 'defines'
@@ -734,13 +877,15 @@ class C26(Property):
     parallel = True
     shard = 60
     rule = ('routines over 6 integer scalars, 2-3 integer arrays and 2 DO variables built by minif.gen_body (assignments, element stores, '
-            'nested DO loops incl. negative steps and scalar-dependent bounds, IF/ELSE) plus inserted bounded DO WHILE loops, define-then-use patterns (must-define, '
+            'nested DO loops incl. negative steps and scalar-dependent bounds, IF/ELSE) plus SELECT CASE constructs (55% of the routines; 2-3 branches, '
+            'usually CASE DEFAULT, a variable written in one branch and read in a later one), inserted bounded DO WHILE loops, define-then-use patterns (must-define, '
             'define in both branches, use-define-use, element store/read, the F9 conditional-define pattern) and CALLs to 1-2 generated callees '
             'with every dummy intent (in/out/inout/none, scalar and array dummies, with and without enrichment, expression and array-element '
             'actuals); per case 3 stores; a case is non-trivial when some node execution wrote or read a variable; distinct = distinct program text')
     modelled_not_verified = [
         'Loki frontend (fparser) and Subroutine.enrich are used as they are; symbols are compared as lower-case names',
-        'MultiConditional (SELECT CASE), MaskedStatement (WHERE), Associate, Allocation, ConditionalAssignment, derived-type members, literal kinds, '
+        'SELECT CASE is modelled through its IF/ELSE-IF encoding (proved to carry the sets of visit_MultiConditional); MaskedStatement (WHERE), Associate, '
+        'Allocation, ConditionalAssignment, SELECT TYPE, derived-type members, literal kinds, '
         'memory-query intrinsics (size/lbound/ubound/present) are not modelled (MiniF core only)',
         'the set "read before written" of the instrumented interpreter is a definition (a dummy bound to a variable is an access to that variable, '
         'a non-variable actual is evaluated at the call); it is tied to the Python tracer but not proved equivalent to an independent semantics',
@@ -752,9 +897,11 @@ class C26(Property):
         for name in sorted(WITNESSES):
             c = dict(WITNESSES[name]); c['kind'] = 'witness-class'; c['mode'] = 'class'; c['name'] = name
             yield c
+        for c in SELECT_FIXED:
+            yield dict(c)
         n = 160 if tier == 'quick' else 1000
         for i in range(n):
-            unit, callees = gen_unit(rng, tier)
+            unit, callees = gen_unit(rng, tier, select=True)
             yield {'kind': 'calls' if callees else 'plain', 'mode': 'class', 'unit': unit, 'callees': callees,
                    'stores': gen_stores(rng, unit, 3)}
 
@@ -771,13 +918,13 @@ class C26(Property):
 
     # ------------------------------------------------------------------ model
     def _shape(self, case):
-        return ['section'] + [s[0] for s in preorder(case['unit']['body'])]
+        return ['section'] + real_kinds(desugar(case['unit']['body']))
 
     def _trace0(self, case):
         """names written / read before written by the whole body on the first store (None if the run is stuck)"""
         try:
             tr = Tracer(unit_procs(case))
-            t = tr.run(case['unit']['body'], store_from_json(case['stores'][0]))
+            t = tr.run(desugar(case['unit']['body']), store_from_json(case['stores'][0]))
             return lnames(t[0]), lnames(t[1])
         except minif.Stuck:
             return None
@@ -787,10 +934,11 @@ class C26(Property):
             raise ValueError('node shape differs: %s vs %s' % (out.get('kinds'), self._shape(case)))
         unit = case['unit']
         procs, sg, mw = unit_procs(case), unit_sigs(case), unit_musts(case)
-        body = minif.stmts_model(unit['body'])
+        D = desugar(unit['body'])
+        body = minif.stmts_model(D)
         sets = [(names_model(d), names_model(u), names_model(l)) for d, u, l in out['sets']]
         terms = [coq(C('chk_annot', sg_model(sg), args_model(unit), body, sets))]
-        fl = class_flags(unit['body'], mw, procs, sg)
+        fl = class_flags(D, mw, procs, sg)
         terms.append(coq(C('chk_flags', mw_model(mw), minif.procs_model(procs), sg_model(sg), body, sigs_ok(mw, procs, sg),
                            [(bool(a), bool(b)) for a, b in fl])))
         t0 = self._trace0(case)
@@ -801,7 +949,7 @@ class C26(Property):
 
     def show_model(self, case, out):
         unit = case['unit']
-        return ['annot_routine %s %s %s' % (coq(sg_model(unit_sigs(case))), coq(args_model(unit)), coq(minif.stmts_model(unit['body'])))]
+        return ['annot_routine %s %s %s' % (coq(sg_model(unit_sigs(case))), coq(args_model(unit)), coq(minif.stmts_model(desugar(unit['body']))))]
 
     # ------------------------------------------------------------------ oracle
     def oracle(self, case, out):
@@ -812,9 +960,15 @@ class C26(Property):
             return None   # reported through the tie
         aspect = case.get('aspect') if case.get('mode') == 'full' else None
         procs, sg, mw = unit_procs(case), unit_sigs(case), unit_musts(case)
-        body = unit['body']
+        body = desugar(unit['body'])
         nodes = preorder(body)
         nid = {id(s): i + 1 for i, s in enumerate(nodes)}
+        # index of every node of the encoded program in Loki's node list (None: a link of a SELECT chain, not an IR node)
+        real, k = [0], 0
+        for s in nodes:
+            if is_cont(s): real.append(None)
+            else:
+                k += 1; real.append(k)
         flags = class_flags(body, mw, procs, sg)
         sok = sigs_ok(mw, procs, sg)
         alldv = dovars(body)
@@ -830,11 +984,12 @@ class C26(Property):
                 continue
             recs = [(0, t[0], t[1], set(live0), None)] + [(nid[i], w, r, h, lw) for i, w, r, h, lw in tr.records]
             for n, w, r, h, lw in recs:
-                D, U, L = sets[n]
+                if real[n] is None: continue
+                D, U, L = sets[real[n]]
                 node = nodes[n - 1] if n else None
                 dv = alldv if n == 0 else dovars_stmt(node)
                 wn, rn = {l[1] for l in w}, {l[1] for l in r}
-                what = 'routine body' if n == 0 else '%s node #%d' % (node[0], n)
+                what = 'routine body' if n == 0 else '%s node #%d' % ('select' if is_head(node) else node[0], real[n])
                 # defines: on the class (calls whose written actuals are all counted, callees respecting their intents) up to DO variables
                 full = aspect == 'defines'
                 bad = wn - D - (set() if full else dv)
@@ -860,7 +1015,7 @@ class C26(Property):
         except Exception:
             return None
         if not t or not (t[0] or t[1]): return None
-        return minif.unit_to_fortran(case['unit']) + repr(sorted(unit_sigs(case).items()))
+        return unit_fortran(case['unit']) + repr(sorted(unit_sigs(case).items()))
 
     def search(self, rng, bad_cases):
         # disagreeing programs re-checked as stated (mode full) on fresh stores, plus their sub-bodies as routines of their own
